@@ -13,7 +13,7 @@ from .C02 import ref_weight
 
 FUNCTIONS = ["init", "extend", "change", "rejuvenate", "resample", "ParticleCollection.log_marginal_likelihood/estimate/effective_sample_size",
              "_create_particle_collection", "rejuvenation_smc", "modular_vmap", "Fn.merge"]
-BOUNDS = {"N": "particle counts 1..3", "T": "rejuvenation_smc with 2 observations (one extend step), N = 2", "model": "step model x ~ N(prev, 1), y ~ N(x, 1/2), return x; custom proposals x ~ N(mix of obs and prev, 1); a two-latent step model with PARTIAL custom proposals (the model samples the other latent itself)",
+BOUNDS = {"N": "particle counts 1..3 (thorough: up to 4, rejuvenation_smc with N = 3)", "T": "rejuvenation_smc with 2 observations (one extend step), N = 2", "model": "step model x ~ N(prev, 1), y ~ N(x, 1/2), return x; custom proposals x ~ N(mix of obs and prev, 1); a two-latent step model with PARTIAL custom proposals (the model samples the other latent itself)",
           "values": "all observation values, arguments, previous weights/particles and random outcomes"}
 ASSUMPTIONS = ["input particle collection: arbitrary log weights and an arbitrary coherent vectorised trace",
                "unbiasedness of exp(log_marginal_likelihood()) is the corollary of per-particle proper weighting (proved here), independence of the draws (site laws) and C12/C09",
@@ -39,6 +39,9 @@ def groups(tier, seed):
     for n in Ns:
         gs += [f"init_default:{n}", f"init_custom:{n}", f"extend_default:{n}", f"extend_custom:{n}"]
     gs += ["rejuvenate:2", "change:2", "lml:3", "estimate:2", "rsmc:2"]
+    if tier == "thorough":
+        gs += ["init_default:4", "init_custom:4", "extend_default:4", "extend_custom:4", "init_partial:3", "extend_partial:3", "rejuvenate:3",
+               "change:3", "lml:4", "estimate:3", "rsmc:3"]
     return gs
 
 
